@@ -147,8 +147,8 @@ class Env:
                 p.fail = exc("plugin %d shutdown failed" % i)
         dd.load_plugins = lambda config, custom=None: list(self.plugins)
         cfg = {"APP_ROOT": "/app", "SERVICE_SECURE": "False"}
-        if no_trace:
-            cfg["NO_TRACE"] = True
+        if no_trace is not None:
+            cfg["NO_TRACE"] = no_trace
         self.config = ConfigService(cfg, tracepoints=TracepointConfigService())
         self.deep = Deep(self.config)
         self.tasks = FakeTasks()
@@ -163,7 +163,10 @@ class Env:
         th.sys, th.threading, pp.RepeatedTimer, pp.PollConfigStub, gs.grpc, dd.load_plugins, pp.time_ns = self.saved
 
 
-def lifecycle(o1: int, o2: int, o3: int, o4: int, n: int, sys0: int, thr0: int, no_trace: bool, poll_fails: bool,
+NO_TRACE_VALUES = [None, True, False, "True", "false", "0", "False"]      # absent / bools / text as it arrives from DEEP_NO_TRACE
+
+
+def lifecycle(o1: int, o2: int, o3: int, o4: int, n: int, sys0: int, thr0: int, nt: int, poll_fails: bool,
               pmask: int, flush_fails: bool, stop_fails: bool, fail_base: bool) -> str:
     """
     Histories of up to 4 start / shutdown calls (and the application replacing the trace hooks while the agent is stopped) with pre-existing sys and threading trace functions, tracing enabled or
@@ -171,17 +174,21 @@ def lifecycle(o1: int, o2: int, o3: int, o4: int, n: int, sys0: int, thr0: int, 
     (failing with Exception or a BaseException): hooks installed once and restored exactly (untouched when disabled),
     every shutdown step performed once whatever fails, started flag truthful.
     PRE: 0 <= o1 <= 4 and 0 <= o2 <= 4 and 0 <= o3 <= 4 and 0 <= o4 <= 4 and 1 <= n <= 4
-    PRE: 0 <= sys0 <= 2 and 0 <= thr0 <= 2 and 0 <= pmask <= 7 and not fail_base
+    PRE: 0 <= sys0 <= 2 and 0 <= thr0 <= 2 and 0 <= pmask <= 7 and not fail_base and 0 <= nt <= 6
     PRE: n >= 4 or o4 == 0
     PRE: n >= 3 or o3 == 0
     PRE: n >= 2 or o2 == 0
     POST: _ == ""
     """
     world.begin_path()
-    v = [world.realize(x) for x in (o1, o2, o3, o4, n, sys0, thr0, no_trace, poll_fails, pmask, flush_fails, stop_fails, fail_base)]
+    v = [world.realize(x) for x in (o1, o2, o3, o4, n, sys0, thr0, nt, poll_fails, pmask, flush_fails, stop_fails, fail_base)]
     ops = v[:4][:v[4]]
-    sys0, thr0, no_trace, poll_fails, pmask, flush_fails, stop_fails, fail_base = v[5:]
-    env = Env(sys0, thr0, no_trace, poll_fails, pmask, flush_fails, stop_fails, fail_base)
+    sys0, thr0, nt, poll_fails, pmask, flush_fails, stop_fails, fail_base = v[5:]
+    nt_value = NO_TRACE_VALUES[nt]
+    # tracing is certainly disabled for True, certainly enabled when absent / False; for text the agent decides - but its
+    # start and shutdown must agree with each other
+    no_trace = True if nt_value is True else (False if nt_value in (None, False) else None)
+    env = Env(sys0, thr0, nt_value, poll_fails, pmask, flush_fails, stop_fails, fail_base)
     try:
         d = env.deep
         started = False
@@ -200,8 +207,11 @@ def lifecycle(o1: int, o2: int, o3: int, o4: int, n: int, sys0: int, thr0: int, 
                     return "C14:start-raised:" + type(e).__name__
                 if not started:
                     started = True
-                    if not no_trace:
-                        saved = (exp_sys, exp_thr)
+                    decided = no_trace
+                    if decided is None:     # text value: read off what start() did, shutdown must then undo exactly that
+                        decided = not (env.fsys.cur == d.trigger_handler.trace_call and env.fthr.cur == d.trigger_handler.trace_call)
+                    saved = (exp_sys, exp_thr)
+                    if not decided:
                         exp_sys = exp_thr = d.trigger_handler.trace_call
                 if not d.started:
                     return "C14:started-flag-false-after-start"
@@ -221,8 +231,7 @@ def lifecycle(o1: int, o2: int, o3: int, o4: int, n: int, sys0: int, thr0: int, 
                 if started:
                     started = False
                     n_shutdowns += 1
-                    if not no_trace:
-                        exp_sys, exp_thr = saved
+                    exp_sys, exp_thr = saved
                 if d.started:
                     return "C14:started-flag-still-true-after-shutdown"
             world.reached()
@@ -233,7 +242,7 @@ def lifecycle(o1: int, o2: int, o3: int, o4: int, n: int, sys0: int, thr0: int, 
                 if op == 0:
                     return "C14:hooks-not-installed-or-installed-wrongly"
                 return "C14:previous-hooks-not-restored-exactly"
-            if no_trace and (env.fsys.sets or env.fthr.sets):
+            if no_trace is True and (env.fsys.sets or env.fthr.sets):
                 return "C14:hooks-touched-although-tracing-disabled"
             # ---- timers: exactly one running while started, none after shutdown
             running = [t for t in FakeTimer.instances if t.started > t.stopped]
@@ -248,7 +257,7 @@ def lifecycle(o1: int, o2: int, o3: int, o4: int, n: int, sys0: int, thr0: int, 
                 if p.downs != n_shutdowns:
                     return "C14:plugin-shutdown-not-called-exactly-once-per-shutdown"
         n_starts_effective = n_shutdowns + (1 if started else 0)
-        if not no_trace:
+        if no_trace is False:
             installs = [f for f in env.fsys.sets if f == d.trigger_handler.trace_call]
             n_starts_effective = sum(1 for _ in installs) if False else n_starts_effective
             if len(installs) != n_starts_effective:
@@ -304,13 +313,14 @@ _FAIL = ["not poll_fails and pmask == 0 and not flush_fails and not stop_fails a
          "pmask == 7 and not flush_fails and stop_fails"]
 CONDITIONS = [
     dict(fn="lifecycle",
-         cubes={"quick": ["n == %d and (%s) and sys0 == %d and o1 <= 1 and o2 <= 1 and o3 <= 1" % (n, f, s) for n in (2, 3) for f in _FAIL for s in range(3)] +
-                         ["n == 4 and (%s) and sys0 == %d and thr0 == 2 and not no_trace and o1 == 0 and o2 == 1 and o3 == %d and o4 <= 1" % (_FAIL[0], s, o) for s in range(3) for o in (2, 3, 4)] +
-                         ["n == 4 and (%s) and sys0 == 1 and thr0 == 2 and o1 == %d and o2 == 0 and o3 == 1 and o4 <= 1" % (_FAIL[0], o) for o in (2, 3, 4)],
+         cubes={"quick": ["n == %d and (%s) and sys0 == %d and nt <= 1 and o1 <= 1 and o2 <= 1 and o3 <= 1" % (n, f, s) for n in (2, 3) for f in _FAIL for s in range(3)] +
+                         ["n == 2 and (%s) and sys0 == 1 and nt == %d and o1 <= 1 and o2 <= 1" % (_FAIL[0], t) for t in (2, 3, 4, 5, 6)] +
+                         ["n == 4 and (%s) and sys0 == %d and thr0 == 2 and nt == 0 and o1 == 0 and o2 == 1 and o3 == %d and o4 <= 1" % (_FAIL[0], s, o) for s in range(3) for o in (2, 3, 4)] +
+                         ["n == 4 and (%s) and sys0 == 1 and thr0 == 2 and nt == 0 and o1 == %d and o2 == 0 and o3 == 1 and o4 <= 1" % (_FAIL[0], o) for o in (2, 3, 4)],
                 "thorough": ["n == %d and pmask == %d and sys0 == %d and thr0 == %d and o1 == %d" % (n, m, s, t, o) for n in (3, 4) for m in range(8) for s in range(3) for t in range(3) for o in range(5)]},
-         twins=["reach@n == 2 and (%s) and sys0 == 1 and o1 <= 1 and o2 <= 1 and o3 <= 1" % _FAIL[0], "mutant:skip_threading_restore@n == 2 and (%s) and sys0 == 1 and o1 <= 1 and o2 <= 1 and o3 <= 1" % _FAIL[0],
-                "mutant:restart_installs_again@n == 2 and (%s) and sys0 == 1 and o1 <= 1 and o2 <= 1 and o3 <= 1" % _FAIL[0], "mutant:shutdown_unguarded@n == 2 and (%s) and sys0 == 1 and o1 <= 1 and o2 <= 1 and o3 <= 1" % _FAIL[1]],
-         bounds="histories of 2-3 (thorough 3-4) start/shutdown calls, plus 4-operation histories in which the application replaces the hooks between two cycles; pre-existing sys and threading trace functions each in {None, A, B}; NO_TRACE on/off; "
+         twins=["reach@n == 2 and (%s) and sys0 == 1 and nt <= 1 and o1 <= 1 and o2 <= 1 and o3 <= 1" % _FAIL[0], "mutant:skip_threading_restore@n == 2 and (%s) and sys0 == 1 and nt <= 1 and o1 <= 1 and o2 <= 1 and o3 <= 1" % _FAIL[0],
+                "mutant:restart_installs_again@n == 2 and (%s) and sys0 == 1 and nt <= 1 and o1 <= 1 and o2 <= 1 and o3 <= 1" % _FAIL[0], "mutant:shutdown_unguarded@n == 2 and (%s) and sys0 == 1 and nt <= 1 and o1 <= 1 and o2 <= 1 and o3 <= 1" % _FAIL[1]],
+         bounds="histories of 2-3 (thorough 3-4) start/shutdown calls, plus 4-operation histories in which the application replaces the hooks between two cycles; pre-existing sys and threading trace functions each in {None, A, B}; NO_TRACE absent / True / False / 4 text values (start and shutdown must agree); "
                 "failure subsets over {poll, flush, timer stop, 3 plugin shutdowns} (quick: 5 representative subsets; thorough: all plugin masks x all others), "
                 "failing with Exception or KeyboardInterrupt"),
 ]
